@@ -1049,7 +1049,7 @@ pub fn generate(tier: &str, rng: &mut Rng) -> Vec<String> {
     }
 
     // ---- random descriptors
-    let nrand = if thorough { 6000 } else { 500 };
+    let nrand = if thorough { 30000 } else { 500 };
     for _ in 0..nrand {
         let n = match rng.below(10) {
             0 => 0,
@@ -1084,7 +1084,7 @@ pub fn generate(tier: &str, rng: &mut Rng) -> Vec<String> {
             out.push(e2e_line("routes", Wrap::ALL[(i + j + 1) % 4], &without, i, j, 1));
         }
     }
-    let ne2e = if thorough { 4000 } else { 400 };
+    let ne2e = if thorough { 15000 } else { 400 };
     for _ in 0..ne2e {
         let k = 1 + rng.below(n as u64) as usize;
         let mut order = all.clone();
